@@ -215,6 +215,7 @@ Definition submit (no : Z) (r : reqcfg) (w : world) : world :=
   match get_node (r_src r) (w_nodes w) with
   | None => w
   | Some n =>
+    if c_raw (n_cfg n) then w else     (* a raw peer's request only scripts the server application's answer *)
     let '(idr, next') :=
       if r_invoke r =? -1 then get_next_invoke_id (n_next n) (r_dst r) (n_ctr n)
       else if existsb (tr_matches (r_invoke r) (r_dst r)) (n_ctr n) then (Err RuntimeErr, n_next n)
